@@ -103,8 +103,8 @@ fn cursor_program(i: u64, sink: &mut ChildSink) {
 
 // ---------------------------------------------------------------- user-written table models
 #[derive(Clone, Debug)]
-struct Rows8 {
-    rows: Vec<(u8, u8, u8)>, // (symbol, cumulative, probability != 0)
+pub struct Rows8 {
+    pub rows: Vec<(u8, u8, u8)>, // (symbol, cumulative, probability != 0)
 }
 impl EntropyModel<4> for Rows8 {
     type Symbol = u8;
@@ -129,7 +129,7 @@ impl<'m> IterableEntropyModel<'m, 12> for Rows16 {
     }
 }
 
-fn table_cases() -> Vec<Vec<(u8, u8, u8)>> {
+pub fn table_cases() -> Vec<Vec<(u8, u8, u8)>> {
     // every table of 0..=2 rows over cumulative in {0,5,15} and probability in {1,8,15,16,200}, plus classics
     let cs = [0u8, 5, 15];
     let ps = [1u8, 8, 15, 16, 200];
@@ -140,6 +140,12 @@ fn table_cases() -> Vec<Vec<(u8, u8, u8)>> {
     v.push(vec![(0, 0, 4), (1, 4, 4), (2, 8, 4)]); // truncated
     v.push(vec![(0, 0, 8), (1, 8, 8), (2, 16, 8)]); // overfull
     v.push(vec![(0, 8, 8), (1, 0, 8)]); // non-monotone
+    // tables that overshoot 2^P, wrap around the probability type once or twice and land on 2^P again
+    v.push(vec![(0, 0, 200), (1, 200, 72)]);
+    v.push(vec![(0, 0, 128), (1, 128, 128), (2, 0, 16)]);
+    v.push(vec![(0, 0, 255), (1, 255, 17)]);
+    v.push(vec![(0, 0, 200), (1, 200, 200), (2, 144, 128)]);
+    v.push(vec![(0, 0, 16), (1, 16, 255), (2, 15, 1)]);
     v
 }
 const N_TABLE_OPS: u64 = 4;
